@@ -54,6 +54,11 @@ class Monitor:
     def on_reward(self, ctx, t, r):
         pass
 
+    def choose_reward(self, ctx, t, p, r):
+        """hostile environments: a monitor may replace the reward about to be delivered (return a float) - e.g. by one
+        that makes two optimistic values tie exactly; None keeps r"""
+        return None
+
     def before_query(self, ctx):
         pass
 
@@ -244,6 +249,10 @@ def drive(case, monitors, learner_cls=None, step_limit=10 ** 7, wall_s=600, use_
                         ctx.extra["mid"] = False
                         hub.phase = "idle"
                     r = fn(i, p)
+                    for m in monitors:
+                        r2 = m.choose_reward(ctx, t, p, r)
+                        if r2 is not None:
+                            r = r2
                     entry["reward"] = r
                     phase = hub.phase = "reward"
                     if budget:
